@@ -134,6 +134,7 @@ func (u *executeUnit) run(r euReq) euResp {
 	if err != nil {
 		return euResp{err: err}
 	}
+	r.ctx.VerifExec(u.runner.SequenceID, u.runner.Pc, execution, u.memory)
 	log.Infoi(r.ctx, "EU", u.runner.Runner.InstructionType(), u.runner.Pc, "execution result: %+v", execution)
 	if execution.Return {
 		return euResp{isReturn: true}
@@ -141,6 +142,7 @@ func (u *executeUnit) run(r euReq) euResp {
 
 	if execution.MemoryChange && u.mmu.doesExecutionMemoryChangesExistsInL3(execution) {
 		u.mmu.writeExecutionMemoryChangesToL3(execution)
+		r.ctx.VerifStore(u.runner.SequenceID, execution)
 		r.ctx.DeletePendingRegisters(u.runner.Runner.ReadRegisters(), u.runner.Runner.WriteRegisters())
 		return euResp{}
 	}
